@@ -543,6 +543,20 @@ func c09Bytes(e *c09env) {
 			return
 		}
 	}
+	// a complete, well-formed request that is larger than the protocol's message size limit is not served
+	for _, extra := range []int{1, 1 << 20} {
+		big, _ := proto.Marshal(pb.NewMessage(pb.Message_PING, make([]byte, network.MessageSizeMax+extra), 0))
+		replies, _, reset, handled, _ := e.exchange(e.outsider, frame(big))
+		if !handled {
+			x.Failf("C09/bytes/malformed-reply", "oversized request: no handler")
+			return
+		}
+		if len(replies) > 0 || !reset {
+			x.Failf("C09/bytes/oversized-request-served", "a %d byte request (limit %d) was answered with %d message(s), stream reset=%v", len(big), network.MessageSizeMax, len(replies), reset)
+			return
+		}
+		x.Eval(true)
+	}
 	for a := 0; a < 256; a++ {
 		if !try([]byte{byte(a)}, "1-byte input") {
 			return
